@@ -57,6 +57,7 @@ pub open spec fn fix(c: Chain, rho: Rank, k: ExprRef) -> Option<ExprRef>
     }
 }
 
+//@@MAPS-CONTAINERS@@
 // ---------------------------------------------------------------------------------------------------------------
 // environment of the two map containers and of DenseExprSet
 // ---------------------------------------------------------------------------------------------------------------
